@@ -41,6 +41,8 @@ type hCfg struct {
 	Seqs         func(rng *rand.Rand) uint32
 	Extras       bool // also heartbeat / PFD management requests and response-type messages
 	SamePrecPair bool // the uplink and the downlink PDR of a pair (same filter) carry the same precedence
+	SafeQER      bool // steer around the session-QER heuristic's known unsound shapes (owned by C09): with 2+ QERs the
+	// last one is a non-GBR QER with the strictly largest uplink MBR, referenced last by every PDR, and is not updated
 }
 
 type hOp struct {
@@ -71,8 +73,11 @@ type hRunner struct {
 	nsess int // session counter (unique UE addresses / TEIDs within the agent instance)
 	base  int // offset for unique addressing across histories on one agent instance
 	trace []string
+	rejected int // requests inside the envelope that the agent rejected
+	ghosts   []mGhost
 
 	// callbacks
+	onBefore func(h *hRunner, op *hOp)
 	onReply func(h *hRunner, op *hOp, ex *vExchange, rep *vReply, accepted bool) // after each exchange, before the model is updated
 	onState func(h *hRunner, op *hOp, accepted bool)                            // after the model was updated
 }
@@ -131,6 +136,14 @@ func (h *hRunner) genSession(assoc int) (*vEstSpec, *mSession, map[uint16]*mFlow
 	qids := []uint32{}
 	for i := 0; i < nq; i++ {
 		q := h.genQER(uint32(i + 1))
+		if c.SafeQER && nq > 1 {
+			if i == nq-1 {
+				q.HasGBR, q.GBRUL, q.GBRDL = false, 0, 0
+				q.MBRUL = (1 << 25) + uint64(rng.Intn(1000))
+			} else if q.MBRUL >= 1<<25 {
+				q.MBRUL = 1 << 20
+			}
+		}
 		est.QERs = append(est.QERs, q)
 		qids = append(qids, q.ID)
 	}
@@ -148,11 +161,19 @@ func (h *hRunner) genSession(assoc int) (*vEstSpec, *mSession, map[uint16]*mFlow
 	for k := 0; k < npairs; k++ {
 		var fl *mFlow
 		if rng.Intn(100) < c.PSDF || k > 0 {
-			// further pairs of one session need distinct filters to be distinguishable
-			fl = mGenFlow(rng, c.Canonical, c.MaxPortWidth)
-			if c.AppFilters > 0 {
-				fl = h.appFilter(rng.Intn(c.AppFilters))
+			// further pairs of one session need distinct filters: two PDRs of one direction that denote
+			// the same packet set cannot both be represented (and one of them is pointless)
+			for try := 0; try < 50; try++ {
+				fl = mGenFlow(rng, c.Canonical, c.MaxPortWidth)
+				if c.AppFilters > 0 {
+					fl = h.appFilter(rng.Intn(c.AppFilters))
+				}
+				if !hSameMatch(ms, fl) {
+					break
+				}
 			}
+		} else if hSameMatch(ms, nil) {
+			continue
 		}
 		upID, dnID := uint16(2*k+1), uint16(2*k+2)
 		upFAR, dnFAR := uint32(2*k+1), uint32(2*k+2)
@@ -183,7 +204,7 @@ func (h *hRunner) genSession(assoc int) (*vEstSpec, *mSession, map[uint16]*mFlow
 			app := qids[rng.Intn(len(qids)-1)]
 			sq := qids[len(qids)-1]
 			up.QERs, dn.QERs = []uint32{app, sq}, []uint32{app, sq}
-			if !c.UP4 && rng.Intn(3) == 0 {
+			if !c.UP4 && !c.SafeQER && rng.Intn(3) == 0 {
 				dn.QERs = []uint32{sq, app}
 			}
 		}
@@ -344,6 +365,9 @@ func (h *hRunner) genMod(a int, s *mSession) *hOp {
 			return h.genModFallback(a, s)
 		}
 		q := s.QERs[rng.Intn(len(s.QERs))]
+		if c.SafeQER && len(s.QERs) > 1 {
+			return h.genModFallback(a, s)
+		}
 		nq := h.genQER(q.Spec.ID)
 		nq.QFI = q.Spec.QFI
 		mod.UpQER = append(mod.UpQER, nq)
@@ -373,6 +397,12 @@ func (h *hRunner) genMod(a int, s *mSession) *hOp {
 			}
 		case 1: // filter
 			fl = mGenFlow(rng, c.Canonical, c.MaxPortWidth)
+			for try := 0; try < 50 && hSameMatch(s, fl); try++ {
+				fl = mGenFlow(rng, c.Canonical, c.MaxPortWidth)
+			}
+			if hSameMatch(s, fl) {
+				return h.genModFallback(a, s)
+			}
 			np.SDF = fl.Text
 		case 2: // F-TEID of an uplink PDR
 			if p.Uplink && p.Spec.FTEID {
@@ -409,6 +439,12 @@ func (h *hRunner) genMod(a int, s *mSession) *hOp {
 			return h.genModFallback(a, s)
 		}
 		fl := mGenFlow(rng, c.Canonical, c.MaxPortWidth)
+		for try := 0; try < 50 && hSameMatch(s, fl); try++ {
+			fl = mGenFlow(rng, c.Canonical, c.MaxPortWidth)
+		}
+		if hSameMatch(s, fl) {
+			return h.genModFallback(a, s)
+		}
 		used := map[uint32]bool{}
 		for _, x := range s.PDRs {
 			used[x.Spec.Prec] = true
@@ -609,7 +645,12 @@ func (h *hRunner) apply(op *hOp, rep *vReply) {
 		}
 		for _, x := range m.UpPDR {
 			if p := s.pdr(x.ID); p != nil {
+				old := *p
+				oldF := mExpectFilter(old.Uplink, old.UE, old.Flow)
 				*p = *mNewPDR(x, op.Flows[x.ID], h.n3)
+				if newF := mExpectFilter(p.Uplink, p.UE, p.Flow); newF != oldF || old.TEID != p.TEID || old.TunIP != p.TunIP {
+					h.ghosts = append(h.ghosts, mGhost{UP: s.UP, P: old, Flt: oldF})
+				}
 			}
 		}
 		for _, x := range m.UpFAR {
@@ -653,6 +694,9 @@ func (h *hRunner) apply(op *hOp, rep *vReply) {
 func (h *hRunner) step(op *hOp) bool {
 	p := h.peers[op.Assoc]
 	var ex vExchange
+	if h.onBefore != nil {
+		h.onBefore(h, op)
+	}
 	if op.Kind == "neg" && op.Neg == "est-no-assoc" {
 		// an establishment from a socket that never associated
 		np, err := vNewPeer(p.nodeID, h.a.opts.N4)
@@ -687,6 +731,25 @@ func (h *hRunner) step(op *hOp) bool {
 		ex = p.exchange(raw)
 	}
 	h.logf("%s -> %d replies", op.Desc, len(ex.Replies))
+	if op.Est != nil {
+		for _, x := range op.Est.PDRs {
+			h.logf("    pdr %d prec=%d src=%d choose=%v ueflag=%#x sdf=%q far=%d qers=%v", x.ID, x.Prec, x.Src, x.Choose, x.UEFlag, x.SDF, x.FAR, x.QERs)
+		}
+	}
+	if op.Mod != nil {
+		for _, x := range op.Mod.UpPDR {
+			h.logf("    update pdr %d prec=%d src=%d teid=%#x sdf=%q far=%d qers=%v", x.ID, x.Prec, x.Src, x.TEID, x.SDF, x.FAR, x.QERs)
+		}
+		for _, x := range op.Mod.CrPDR {
+			h.logf("    create pdr %d prec=%d src=%d teid=%#x sdf=%q far=%d qers=%v", x.ID, x.Prec, x.Src, x.TEID, x.SDF, x.FAR, x.QERs)
+		}
+		for _, x := range op.Mod.UpFAR {
+			h.logf("    update far %d action=%#x ohc=%v %s/%#x sndem=%v", x.ID, x.Action, x.OHC, x.OHCIP, x.OHCTeid, x.SndEM)
+		}
+		if len(op.Mod.RmPDR) > 0 {
+			h.logf("    remove pdr %v far %v qer %v", op.Mod.RmPDR, op.Mod.RmFAR, op.Mod.RmQER)
+		}
+	}
 	if !ex.BarrierOK {
 		h.res.inconclusive("barrier unanswered after " + op.Desc)
 		return false
@@ -707,11 +770,12 @@ func (h *hRunner) step(op *hOp) bool {
 	h.res.event("requests", 1)
 	if accepted {
 		h.res.event("requests_accepted", 1)
-	} else {
+	} else if op.Kind != "hb" && op.Kind != "resp" {
 		h.res.event("requests_rejected", 1)
 		if op.Kind != "neg" {
 			h.res.event("unexpected_rejections", 1)
 			h.logf("  (rejected)")
+			h.rejected++
 		}
 	}
 	if h.onState != nil {
@@ -751,6 +815,18 @@ func (h *hRunner) run() bool {
 		}
 	}
 	return true
+}
+
+// hSameMatch: would a PDR with this flow (nil = no SDF) denote the same packet set as an existing PDR of the session?
+func hSameMatch(s *mSession, fl *mFlow) bool {
+	const ue = 0x0A000001
+	nf := mExpectFilter(false, ue, fl)
+	for _, p := range s.PDRs {
+		if mExpectFilter(false, ue, p.Flow) == nf {
+			return true
+		}
+	}
+	return false
 }
 
 func hSig(h *hRunner) string {
